@@ -222,7 +222,7 @@ void h_init(void) {
 /* BOUNDED: the whole list is materialised (<= LHT_CLEAR_N entries, no hidden ones); the hash table visits its cells in an
  * order unrelated to the list order (arbitrary permutation) and runs the REAL s_element_destroy per entry. */
 #ifndef LHT_CLEAR_N
-#    define LHT_CLEAR_N 4
+#    define LHT_CLEAR_N 3
 #endif
 static void lht_clear_common(bool clean_up) {
     struct aws_linked_hash_table *T = lht_new_table();
